@@ -478,12 +478,53 @@ func (P *Program) registerStd() {
 	noop := func(fr *frame, args []value) value { return nil }
 	P.reg("(*sync.Mutex).Lock", func(fr *frame, args []value) value { fr.in.mutexLock(args[0].(*value)); return nil })
 	P.reg("(*sync.Mutex).Unlock", func(fr *frame, args []value) value { fr.in.mutexUnlock(args[0].(*value)); return nil })
-	for _, n := range []string{"(*sync.RWMutex).Lock", "(*sync.RWMutex).Unlock",
-		"(*sync.RWMutex).RLock", "(*sync.RWMutex).RUnlock", "(*sync.WaitGroup).Add", "(*sync.WaitGroup).Done", "(*sync.WaitGroup).Wait",
-		"runtime.Gosched", "runtime.GC"} {
+	P.reg("(*sync.RWMutex).Lock", func(fr *frame, args []value) value { fr.in.rwLock(args[0].(*value)); return nil })
+	P.reg("(*sync.RWMutex).Unlock", func(fr *frame, args []value) value { fr.in.rwUnlock(args[0].(*value)); return nil })
+	P.reg("(*sync.RWMutex).RLock", func(fr *frame, args []value) value { fr.in.rwRLock(args[0].(*value)); return nil })
+	P.reg("(*sync.RWMutex).RUnlock", func(fr *frame, args []value) value { fr.in.rwRUnlock(args[0].(*value)); return nil })
+	for _, n := range []string{"(*sync.WaitGroup).Add", "(*sync.WaitGroup).Done", "(*sync.WaitGroup).Wait", "runtime.Gosched", "runtime.GC"} {
 		P.reg(n, noop)
 	}
-	P.reg("(*sync.Mutex).TryLock", func(fr *frame, args []value) value { return fr.in.boolv(true) })
+	// TryLock: outside an interleaving there is no other thread (always free); inside, the lock's state decides
+	P.reg("(*sync.Mutex).TryLock", func(fr *frame, args []value) value {
+		in := fr.in
+		c := in.co()
+		if c == nil {
+			return in.boolv(true)
+		}
+		mu := args[0].(*value)
+		if _, held := c.held[mu]; held {
+			return in.boolv(false)
+		}
+		c.held[mu] = c.cur
+		return in.boolv(true)
+	})
+	P.reg("(*sync.RWMutex).TryLock", func(fr *frame, args []value) value {
+		in := fr.in
+		c := in.co()
+		if c == nil {
+			return in.boolv(true)
+		}
+		st := c.rwOf(args[0].(*value))
+		if st.writer >= 0 || st.readers[0]+st.readers[1] > 0 {
+			return in.boolv(false)
+		}
+		st.writer = c.cur
+		return in.boolv(true)
+	})
+	P.reg("(*sync.RWMutex).TryRLock", func(fr *frame, args []value) value {
+		in := fr.in
+		c := in.co()
+		if c == nil {
+			return in.boolv(true)
+		}
+		st := c.rwOf(args[0].(*value))
+		if st.writer >= 0 {
+			return in.boolv(false)
+		}
+		st.readers[c.cur]++
+		return in.boolv(true)
+	})
 	P.reg("(*sync.Once).Do", func(fr *frame, args []value) value {
 		in := fr.in
 		p := args[0].(*value)
